@@ -4,6 +4,7 @@
 UNITS = [
     {'name': 'bitvec.core', 'backend': 'verus', 'tier': 'quick'},
     {'name': 'bitvec.iter', 'backend': 'verus', 'tier': 'quick'},
+    {'name': 'bitvec.hinted', 'backend': 'verus', 'tier': 'quick'},
     {'name': 'rank9', 'backend': 'verus', 'tier': 'quick'},
     {'name': 'shard_edge', 'backend': 'verus', 'tier': 'quick'},
     {'name': 'ef.builder', 'backend': 'verus', 'tier': 'quick'},
